@@ -388,7 +388,7 @@ def run_group(sess, st, rng, source, tree, families, seen_pre, family_stats=True
             m = re.match(r"char:named\[([^\]]*)\]", k)
             if m:
                 st.add("entity_names_used_in_respellings", m.group(1))
-        if source != "gen":
+        if source.startswith("tricky:"):
             st.add("tricky_cases", source)
         if fam == "mixed" and effect is None:
             st.sample({"base": base[:500], "respelling": x[:900], "mathml_equal": True, "speech": b["speech"][1], "nemeth": b["nemeth"][1], "ueb": b["ueb"][1]}, limit=2)
@@ -496,6 +496,13 @@ def shard(spec):
                 fams.append(rng.choice(S.ADV_FAMILIES))
             run_group(sess, st, rng, "gen", tree, fams, seen_pre)
             st.count("generated_expressions")
+            if g % 6 == 5 and tree.kids:
+                # the same expression handed over WITHOUT its <math> wrapper (MathCAT accepts a bare fragment and adds the wrapper): the
+                # respellings, including comments / PIs in front of and behind the outermost element, must still agree with each other
+                bare = tree.kids[0] if len(tree.kids) == 1 else gen.N("mrow", list(tree.kids))
+                bare = S.strip_marks(bare)
+                run_group(sess, st, rng, "bare", bare, list(S.FAMILIES) + ["outer"], seen_pre)
+                st.count("bare_fragment_expressions")
         st.count("driver_restarts", sess.restarts)
     finally:
         sess.close()
